@@ -614,7 +614,8 @@ impl World {
         limits: RunLimits,
     ) -> Result<(), crate::error::Execution> {
         let start = Instant::now();
-        let time_limit = start + limits.max_time;
+        // a duration too large to be added to the current instant means "no time limit"
+        let time_limit = start.checked_add(limits.max_time);
         let mut index = 0;
 
         let res = loop {
@@ -655,8 +656,10 @@ impl World {
             }
 
             let now = Instant::now();
-            if now >= time_limit {
-                break Err(Execution::RunLimit(crate::error::RunLimit::Timeout));
+            if let Some(time_limit) = time_limit {
+                if now >= time_limit {
+                    break Err(Execution::RunLimit(crate::error::RunLimit::Timeout));
+                }
             }
         };
 
